@@ -77,6 +77,12 @@ func (r *round1) Update(msg model.ConsensusMessage) *Error {
 	gid := groupsig.DeserializeID(bh.GroupId)
 	si := cvm.SignInfo
 
+	// the share must be a signature over this block's hash, not over whatever hash the message carries
+	if si.GetDataHash() != bh.Hash {
+		r.logger.Errorf("sign data hash is not the block hash, id: %s. hash: %s, height: %d", si.GetSignerID().GetHexString(), cvm.BlockHash.String(), bh.Height)
+		return nil
+	}
+
 	// get pubKey
 	pk, ok := group_create.GroupCreateProcessor.GetMemberSignPubKey(gid, si.GetSignerID())
 	if !ok {
